@@ -173,9 +173,16 @@ def oracle_expm(case, R):
     half = False
     if case["B"] == "matrix":
         Bm = rng.standard_normal((n, case["ncolB"]))
+        # documented: "If `B` is a 2d ndarray, `half` is ignored" -> passing both must not change anything
+        half = bool(case.get("half_with_B"))
+        if half:
+            R.label("B_and_half")
     elif case["B"] == "half" and n % 2 == 0:
         half = True
     Bfull = Bm if Bm is not None else (np.eye(n)[:, :n // 2] if half else np.eye(n))
+    if Bm is not None and half and n % 2:
+        half = False        # (half=True with odd n raises when B is None; with B given it is just ignored,
+        #                      but keep the request legal for every variant)
     if order == 1:
         Pref = (I2 / h) @ Bfull
         Qref = (I1 - I2 / h) @ Bfull
@@ -248,7 +255,8 @@ def expm_cases(draw):
         norm = min(norm, 10.0 ** draw(st.floats(-3, 1.0)))     # keep most of them below F11 land
     return {"kind": kind, "n": n, "seed": draw(st.integers(0, 2 ** 31)), "norm": norm,
             "h": 10.0 ** draw(st.floats(-4, 2)), "order": draw(st.sampled_from([0, 1])),
-            "B": draw(st.sampled_from(["none", "matrix", "half"])), "ncolB": draw(st.integers(1, 3))}
+            "B": draw(st.sampled_from(["none", "matrix", "half"])), "ncolB": draw(st.integers(1, 3)),
+            "half_with_B": draw(st.booleans())}
 
 
 # ---------------------------------------------------------------- SSModel
